@@ -20,6 +20,7 @@ import itertools
 from collections import OrderedDict
 
 from .core import AnalysisError
+from .core import model_token
 from .absint import (Interp, Obj, ClassVal, AbsRaise, Unsupported, Native, NativeObj, Closure, Bound,
                      TypeTok, Unknown)
 from .model import ClassInfo
@@ -659,7 +660,7 @@ _CACHE = {}
 
 
 def report(ctx, rule, loc):
-    key = (id(ctx.model), ctx.thorough)
+    key = (model_token(ctx.model), ctx.thorough)
     if key not in _CACHE:
         n1, f1 = explore(ctx)
         n2, f2 = explore_construct(ctx)
